@@ -47,6 +47,7 @@ def run_rules(mod, chk):
         generic.memoised_functions(chk)
         generic.config_not_mutated(chk)
         generic.class_state_not_shared(chk)
+        generic.per_trip_objects_registered(chk)
     chk.repo.on_func = None
     return chk
 
